@@ -83,13 +83,14 @@ class Class(Expression):
                 out += Code(f'{name} = {value}')
             out.add_newline()
 
-        with out.DEF('__init__', ['self'] + field_names):
-            out += Code('ParsedObject.__init__(self)')
+        # (A field may be called "self".)
+        with out.DEF('__init__', ['_self'] + field_names):
+            out += Code('ParsedObject.__init__(_self)')
             for name in field_names:
-                out += Code(f'self.{name} = {name}')
+                out += Code(f'_self.{name} = {name}')
 
-        with out.DEF('__repr__', ['self']):
-            values = ', '.join(f'{x}={{self.{x}!r}}' for x in field_names)
+        with out.DEF('__repr__', ['_self']):
+            values = ', '.join(f'{x}={{_self.{x}!r}}' for x in field_names)
             out.RETURN(Code(f"f'{self.name}({values})'"))
 
         ctx = '_ctx, ' if flags.uses_context else ''
